@@ -81,6 +81,7 @@ TFreadRest == /\ Ev.e = "FreadRest"
               /\ FileStep(IF Ev.noh = 1 THEN ~fh.open /\ UNCHANGED fvars ELSE FreadRest(Ev.c))
 TFclose == /\ Ev.e = "Fclose"
            /\ FileStep(IF Ev.noh = 1 THEN ~fh.open /\ UNCHANGED fvars ELSE Fclose)
+TBufFromFifo == Ev.e = "BufFromFifo" /\ FileStep(BufFromFifo(Ev))
 TBufFromFile == Ev.e = "BufFromFile" /\ FileStep(BufFromFile(Ev.p, Ev.style = "e", Ev))
 
 TIsSepAll == Ev.e = "IsSepAll" /\ Len(Ev.res) = 256 /\ PureStep(IsSepAll(Ev.res))
@@ -95,7 +96,7 @@ TNext == /\ l <= TraceLen /\ l' = l + 1
             \/ TRawPut \/ TRawAppend \/ TRawMkdir \/ TRawSymlink
             \/ TDirCreate \/ TDirExists \/ TPathExists \/ TDirDelete \/ TFileDelete \/ TMove \/ TTraverse
             \/ TIterNew \/ TIterNext \/ TIterPrev \/ TIterDestroy
-            \/ TFopen \/ TFopenBad \/ TFwrite \/ TFlen \/ TFseek \/ TFreadRest \/ TFclose \/ TBufFromFile
+            \/ TFopen \/ TFopenBad \/ TFwrite \/ TFlen \/ TFseek \/ TFreadRest \/ TFclose \/ TBufFromFile \/ TBufFromFifo
             \/ TIsSepAll \/ TPlatSep \/ TNormalize
 TInit == l = 1 /\ fdbase = 0 /\ EnvInit /\ FileInit
 TSpec == TInit /\ [][TNext]_tvars
